@@ -832,7 +832,16 @@ func CrashBatch(r io.Reader, w io.Writer) error {
 		}
 		// announce before running: if the process dies the parent knows where
 		fmt.Fprintf(os.Stderr, "VH-AT %s\n", sc.Bytes())
-		enc.Encode(crashOne(s))
+		done := make(chan CrashObs, 1)
+		go func() { done <- crashOne(s) }()
+		select {
+		case o := <-done:
+			enc.Encode(o)
+		case <-time.After(5 * time.Second):
+			// the goroutine cannot be stopped: report the query and leave; the parent goes on after it
+			enc.Encode(CrashObs{Q: s, Parse: "?", Evals: []string{}, Formats: []string{}, Died: "hang", Msg: "no result within 5 s"})
+			os.Exit(3)
+		}
 	}
 	return sc.Err()
 }
@@ -895,9 +904,17 @@ func Crash(r io.Reader, w io.Writer) error {
 	bw := bufio.NewWriterSize(w, 1<<20)
 	defer bw.Flush()
 	enc := json.NewEncoder(bw)
+	hangs := 0
 	var handle func(qs []string)
 	handle = func(qs []string) {
 		if len(qs) == 0 {
+			return
+		}
+		if hangs >= 30 {
+			// every hang costs seconds: with this many already reported the rest is recorded as not run
+			for _, q := range qs {
+				enc.Encode(CrashObs{Q: q, Parse: "skipped", Evals: []string{}, Formats: []string{}})
+			}
 			return
 		}
 		out, ok, tail := runChild(qs, time.Duration(20+len(qs)/50)*time.Second)
@@ -911,12 +928,16 @@ func Crash(r io.Reader, w io.Writer) error {
 			kind := "crash"
 			if !strings.Contains(tail, "goroutine") && !strings.Contains(tail, "fatal") && !strings.Contains(tail, "panic") {
 				kind = "hang"
+				hangs++
 			}
 			enc.Encode(CrashObs{Q: qs[0], Parse: "?", Evals: []string{}, Formats: []string{}, Died: kind, Msg: lastLines(tail)})
 			return
 		}
 		// the children that completed before the death are kept; bisect the rest
 		for _, o := range out {
+			if o.Died == "hang" {
+				hangs++
+			}
 			enc.Encode(o)
 		}
 		rest := qs[len(out):]
@@ -963,12 +984,60 @@ var examples = []string{
 var tokenPool = []string{".", ".Individuals", ".Name", ".Nodes", ".String", ".X", "|", ";", "?", "(", ")", "{", "}", ":", ",", "=", "!", ">", "<", `"a"`, `""`, "1", "0",
 	"First", "Last", "Length", "Only", "Combine", "NodesWithTagPath", "MergeDocumentsAndIndividuals", "is", "are", "X", "Document1", "Document2", "name", `"`}
 
+// allAccessors lists every method without arguments that returns something (the engine calls any of them), no deny list
+func allAccessors(t reflect.Type) []method {
+	pt := t
+	if t.Kind() != reflect.Ptr && t.Kind() != reflect.Interface {
+		pt = reflect.PtrTo(t)
+	}
+	out := []method{}
+	for i := 0; i < pt.NumMethod(); i++ {
+		m := pt.Method(i)
+		in := 1
+		if pt.Kind() == reflect.Interface {
+			in = 0
+		}
+		if m.Type.NumIn() != in || m.Type.NumOut() < 1 || strings.HasPrefix(m.Name, "Add") || strings.HasPrefix(m.Name, "Set") ||
+			strings.HasPrefix(m.Name, "Delete") || strings.HasPrefix(m.Name, "Remove") {
+			continue
+		}
+		out = append(out, method{m.Name, m.Type.Out(0)})
+	}
+	return out
+}
+
+// reflected writes every accessor chain of depth 1 and 2 from the document (whatever the accessors return: lists, maps,
+// structs, numbers, interfaces), bare and followed by the functions
+func reflected(enc *json.Encoder) {
+	docT := reflect.TypeOf(&gedcom.Document{})
+	for _, a := range allAccessors(docT) {
+		heads := []string{"." + a.name}
+		t := a.out
+		for t.Kind() == reflect.Slice || t.Kind() == reflect.Map {
+			t = t.Elem()
+		}
+		if t.Kind() == reflect.Ptr || t.Kind() == reflect.Interface || t.Kind() == reflect.Struct {
+			for _, b := range allAccessors(t) {
+				heads = append(heads, "."+a.name+" | ."+b.name)
+			}
+		}
+		for _, h := range heads {
+			enc.Encode(h)
+			enc.Encode(h + " | First(1)")
+			enc.Encode(h + " | Length")
+			enc.Encode(h + " | { a: .String }")
+			enc.Encode(h + ` | Only(.String = "x")`)
+		}
+	}
+}
+
 func Strings(w io.Writer, seed int64, n int) error {
 	rng := rand.New(rand.NewSource(seed))
 	enc := json.NewEncoder(w)
 	for _, e := range examples {
 		enc.Encode(e)
 	}
+	reflected(enc)
 	for i := 0; i < n; i++ {
 		switch rng.Intn(4) {
 		case 0: // mutate a documented example: drop / duplicate / swap / insert a token
